@@ -109,7 +109,9 @@ pub fn check(step: &Step, model: &Model, cfg: &Cfg) -> Vec<Finding> {
         if step.after.contains(x) || incl.contains(x) {
             continue;
         }
-        for d in g_before.descendants(x) {
+        // a dependent reached only through a transaction that left by inclusion in this
+        // very step (e.g. committed by the block) depends on the chain now, not on `x`
+        for d in g_before.descendants_avoiding(x, &incl) {
             if step.after.contains(&d) {
                 out.push(finding(
                     format!("c17 dependent_survived_removal cause={cause}"),
